@@ -142,12 +142,46 @@ func ownerOfFieldRaw(w *World, v *types.Var) string {
 			}
 			for i := 0; i < st.NumFields(); i++ {
 				if st.Field(i) == v {
-					return tn.Name()
+					return embeddingOwner(w, tn, 3)
 				}
 			}
 		}
 	}
 	return "?"
+}
+
+// embeddingOwner: a struct that is embedded (anonymously) in exactly one other
+// struct of the repository only groups some of that struct's fields: its fields
+// are promoted and belong, for the rules, to the embedding struct.
+func embeddingOwner(w *World, tn *types.TypeName, depth int) string {
+	if depth == 0 {
+		return tn.Name()
+	}
+	var owners []*types.TypeName
+	for _, p := range w.Pkgs {
+		sc := p.Types.Scope()
+		for _, n := range sc.Names() {
+			on, ok := sc.Lookup(n).(*types.TypeName)
+			if !ok || on == tn {
+				continue
+			}
+			st, ok := on.Type().Underlying().(*types.Struct)
+			if !ok {
+				continue
+			}
+			for i := 0; i < st.NumFields(); i++ {
+				if f := st.Field(i); f.Embedded() {
+					if nn := namedOf(f.Type()); nn != nil && nn.Obj() == tn {
+						owners = append(owners, on)
+					}
+				}
+			}
+		}
+	}
+	if len(owners) == 1 {
+		return embeddingOwner(w, owners[0], depth-1)
+	}
+	return tn.Name()
 }
 
 // freshSol computes, per unit, for local variables bound to a fresh allocation
@@ -350,8 +384,8 @@ func checkDiscipline(w *World, r *Report, la *LockAnalysis, filter func(sharedSt
 	for _, ss := range sharedStructs {
 		n, st := w.Struct(w.pkgByShort(ss.pkg), ss.name)
 		named[ss.name] = n
-		for i := 0; i < st.NumFields(); i++ {
-			structOf[st.Field(i)] = ss
+		for _, f := range flatFields(st) {
+			structOf[f] = ss
 		}
 	}
 	ctor := map[string]map[*FuncInfo]bool{}
@@ -443,6 +477,9 @@ func checkDiscipline(w *World, r *Report, la *LockAnalysis, filter func(sharedSt
 				ss.name, a.Field.Name(), a.Kind, ss.name, orNone(ss.ownerLock), lockFactsOf(held))
 		case row.kind == "lock":
 			r.OK("R09.1", construct, a.Pos(), false, "the lock itself")
+		case row.kind == "syncmap" && !isNamedType(a.Field.Type(), "sync", "Map"):
+			// the table is no longer a sync.Map: its discipline is inferred like that of a new field
+			untabled[a.Field] = append(untabled[a.Field], a)
 		case row.kind == "syncmap":
 			if a.Kind == "method" {
 				r.OK("R09.1", construct, a.Pos(), false, "sync.Map method call")
